@@ -192,6 +192,33 @@ func (r *NgReader) readBlock() error {
 	return nil
 }
 
+// errNgShortOption is returned when an option is shorter than its type requires.
+var errNgShortOption = errors.New("pcapng option value too short")
+
+// minimal value lengths of the options the reader interprets, per block type
+// (option codes are only unique within a block type)
+var (
+	ngMinOptionLengthIDB = map[ngOptionCode]int{
+		ngOptionCodeInterfaceFilter:              1,
+		ngOptionCodeInterfaceTimestampOffset:     8,
+		ngOptionCodeInterfaceTimestampResolution: 1,
+	}
+	ngMinOptionLengthISB = map[ngOptionCode]int{
+		ngOptionCodeInterfaceStatisticsStartTime:         8,
+		ngOptionCodeInterfaceStatisticsEndTime:           8,
+		ngOptionCodeInterfaceStatisticsInterfaceReceived: 8,
+		ngOptionCodeInterfaceStatisticsInterfaceDropped:  8,
+	}
+	ngMinOptionLengthEPB = map[ngOptionCode]int{
+		ngOptionCodeEpbFlags:     4,
+		ngOptionCodeEpbHash:      1,
+		ngOptionCodeEpbDropCount: 8,
+		ngOptionCodeEpbPacketID:  8,
+		ngOptionCodeEpbQueue:     4,
+		ngOptionCodeEpbVerdict:   1,
+	}
+)
+
 // readOption reads a single arbitrary option (type and value). If there is no space left for options and end of options is missing, it is faked.
 func (r *NgReader) readOption() error {
 	if r.currentBlock.length == 4 {
@@ -391,6 +418,9 @@ OPTIONS:
 		if err := r.readOption(); err != nil {
 			return err
 		}
+		if len(r.currentOption.value) < ngMinOptionLengthIDB[r.currentOption.code] && r.currentOption.code != ngOptionCodeEndOfOptions {
+			return errNgShortOption
+		}
 		switch r.currentOption.code {
 		case ngOptionCodeEndOfOptions:
 			break OPTIONS
@@ -465,6 +495,9 @@ OPTIONS:
 	for {
 		if err := r.readOption(); err != nil {
 			return err
+		}
+		if len(r.currentOption.value) < ngMinOptionLengthISB[r.currentOption.code] && r.currentOption.code != ngOptionCodeEndOfOptions {
+			return errNgShortOption
 		}
 		switch r.currentOption.code {
 		case ngOptionCodeEndOfOptions:
@@ -590,6 +623,9 @@ OPTIONS:
 	for {
 		if err := r.readOption(); err != nil {
 			return opts, err
+		}
+		if len(r.currentOption.value) < ngMinOptionLengthEPB[r.currentOption.code] && r.currentOption.code != ngOptionCodeEndOfOptions {
+			return opts, errNgShortOption
 		}
 		switch r.currentOption.code {
 		case ngOptionCodeEndOfOptions:
